@@ -385,7 +385,8 @@ pub fn map_op_strings(doc: &mut [MExecDef], f: &mut dyn FnMut(&mut String)) {
                 map_dirs(&mut fr.directives, f);
                 map_sel_strings(&mut fr.sel, f);
             }
-            MExecDef::Import(_) => {}
+            // the path of an import is a string value like any other (printed by the same routine)
+            MExecDef::Import(i) => f(&mut i.path),
         }
     }
 }
